@@ -85,23 +85,23 @@ CLAIMS = {
         note="Trusted: forms engine; role vocabulary. Floating-point non-associativity not decided.",
         ref="2/C15"),
     "C16": dict(
-        technique="writer/reader key-table agreement; field coverage of export/import; nullness round-trip of setter/getter pairs; sibling agreement of the two get_mpo_tensor / PtTempo constructions; value-preservation analysis of export / import and of the HDF5 helpers",
-        text="Decides table agreement of HDF5 keys (X1), field coverage of export and import (X2), None round-trip (X3), shape/data index pairing (X4), raw-vs-transformed discipline as an index-contraction signature of both get_mpo_tensor (X5), agreement of the two PtTempo constructions (X6), dtype table (X7). Bitwise equality through HDF5 is not decided. X9: export and import move tensors through value-preserving conversions only.",
+        technique="writer/reader key-table agreement; field coverage of export/import; nullness round-trip of setter/getter pairs; sibling agreement of the two get_mpo_tensor / PtTempo constructions; value-preservation analysis of export / import and of the HDF5 helpers; memo-key rule over the process-tensor getters incl. single-slot memos",
+        text="Decides table agreement of HDF5 keys (X1), field coverage of export and import (X2), None round-trip (X3), shape/data index pairing (X4), raw-vs-transformed discipline as an index-contraction signature of both get_mpo_tensor (X5), agreement of the two PtTempo constructions (X6), dtype table (X7). Bitwise equality through HDF5 is not decided. X9: export and import move tensors through value-preserving conversions only. X10: no getter of a process tensor serves a remembered value whose key leaves out an argument of the request (e.g. the transformed flag).",
         note="Trusted: h5py dataset API table. Partial claim.",
         ref="2/C16"),
     "C17": dict(
-        technique="dominance on the CFG; path-conditioned abstract evaluation with the typed fact 'h5py attribute = numpy scalar, never identical to True'; constant propagation of the open-mode table; who-may-call for file removal",
-        text="Decides the life cycle of the 'writing' flag (W1-W3, W6), the open-mode table (W4) and the removal guard (W5) - every structural condition of the crash-safety clause.",
+        technique="dominance on the CFG; path-conditioned abstract evaluation with the typed fact 'h5py attribute = numpy scalar, never identical to True'; constant propagation of the open-mode table; who-may-call for file removal; who-may-call analysis of helpers that clear the flag",
+        text="Decides the life cycle of the 'writing' flag (W1-W3, W6), the open-mode table (W4) and the removal guard (W5) - every structural condition of the crash-safety clause. W2 / W6 accept the reset of the flag in a helper that only close() can reach.",
         note="Trusted: h5py/numpy semantics table. What HDF5 has flushed at an arbitrary kill point is not decided.",
         ref="2/C17"),
     "C18": dict(
-        technique="operand-position check on accumulation sites identified by def-use; event-order check on the CFG with events classified by provenance; products of superoperators with feasible-path filtering; ownership analysis of in-place updates",
-        text="Decides composition order of stacked controls (O1), pre/record/post/propagate order of all steppers on every path (O2), float-time rounding and the None convention (O3). O2 reads products of controls and propagators (factors in cycle order, fused-in roles checked on feasible paths). O6: controls and propagators are never combined by updating a shared array in place.",
+        technique="operand-position check on accumulation sites identified by def-use; event-order check on the CFG with events classified by provenance; products of superoperators with feasible-path filtering; ownership analysis of in-place updates; sortedness requirement for itertools.groupby over stacked controls",
+        text="Decides composition order of stacked controls (O1), pre/record/post/propagate order of all steppers on every path (O2), float-time rounding and the None convention (O3). O2 reads products of controls and propagators (factors in cycle order, fused-in roles checked on feasible paths). O6: controls and propagators are never combined by updating a shared array in place. O1 also covers list slots folded at read time and requires groupby input sorted by its key.",
         note="Trusted: `A @ B` applies B first; tensornetwork contraction is order-free.",
         ref="2/C18"),
     "C19": dict(
-        technique="must-pass-through on the CFG with exceptional edges (enter/exit pairing); who-may-start enumeration; lock+flag typestate of the re-arming timer",
-        text="Decides the structural content of C19 completely: every progress object is paired on all paths incl. exceptions (P1), nothing else starts background activity (P2), the re-arming timer follows the lock+stop-flag protocol (P3), protocol/registry (P4).",
+        technique="must-pass-through on the CFG with exceptional edges (enter/exit pairing); who-may-start enumeration; lock+flag typestate of the re-arming timer; exceptional-edge reachability after Timer.start() in enter()",
+        text="Decides the structural content of C19 completely: every progress object is paired on all paths incl. exceptions (P1), nothing else starts background activity (P2), the re-arming timer follows the lock+stop-flag protocol (P3), protocol/registry (P4). P5: in enter() nothing that can raise follows the timer start (otherwise __exit__ never runs and the timer is never cancelled).",
         note="Trusted: threading.Timer / Executor context-manager semantics table.",
         ref="2/C19"),
     "C20": dict(
